@@ -563,7 +563,31 @@ namespace chaiscript::json {
       return JSON();
     }
 
+    /// Nested arrays/objects recurse through parse_next; without a limit a long run of '['
+    /// overflows the native stack. The limit is reported as an exception like any other parse error.
+    struct Depth_Guard {
+      static constexpr std::size_t max_depth = 512;
+
+      static std::size_t &depth() noexcept {
+        thread_local std::size_t s_depth = 0;
+        return s_depth;
+      }
+
+      Depth_Guard() {
+        if (depth() >= max_depth) {
+          throw std::runtime_error("JSON ERROR: Parse: maximum nesting depth exceeded");
+        }
+        ++depth();
+      }
+
+      Depth_Guard(const Depth_Guard &) = delete;
+      Depth_Guard &operator=(const Depth_Guard &) = delete;
+
+      ~Depth_Guard() { --depth(); }
+    };
+
     static JSON parse_next(const std::string &str, size_t &offset) {
+      const Depth_Guard depth_guard;
       char value;
       consume_ws(str, offset);
       value = str.at(offset);
